@@ -43,6 +43,11 @@ def roots(tier, seed):
                     case["stops"] = "all" if full else "some"
                     case["explore"] = 0
                     out.append(case)
+    from .. import cover
+    for c in cover.roots_for(tier):
+        if c.get("callback") is not None:
+            c["stops"] = "some"
+            out.append(c)
     return alpha.permute(out, seed)
 
 
@@ -75,7 +80,15 @@ def _post(base, recs, stats):
                                  f"instead of returning the point with status 3"})
             continue
         what = None
-        if int(res.status) != 3 or int(res.nfev) != k:
+        early = bool(rec.pcalls) and all(p["kind"] == "result" for p in rec.pcalls)
+        if early and int(res.status) in (-1, 2) and int(res.nfev) == k:
+            # infeasible or all-fixed bounds: the only evaluation is made while the result of the early exit is
+            # assembled; there is no iteration to stop and the early-exit status prevails (see DESIGN.md section 0)
+            stats["early_exit_stops"] = stats.get("early_exit_stops", 0) + 1
+            if not e1.same_bits(np.asarray(res.x, float), seen["x"]):
+                what = ("stop-returns-other-point", f"early exit: returned {np.asarray(res.x).tolist()} but the "
+                                                    f"callback had received {seen['x'].tolist()}")
+        elif int(res.status) != 3 or int(res.nfev) != k:
             what = ("stop-status-nfev", f"callback raised StopIteration at call {k}: status={res.status} nfev={res.nfev}")
         elif not e1.same_bits(np.asarray(res.x, float), seen["x"]):
             what = ("stop-returns-other-point",
